@@ -49,9 +49,9 @@ def oracle (obs : List (List String × String)) : Verdict :=
     let inDom := tr.all fun p => Spec.C19.opInDomain p.1
     let tags := (judged.map (opTag ·.1)).eraseDups ++ (if inDom then [] else ["out-of-domain"])
     if Spec.C19.holdsOn tr then
-      { ok := true, nontrivial := inDom && !judged.isEmpty, tags := tags }
+      { ok := true, nontrivial := !(judged.filter fun p => inDom || opTag p.1 == "exp").isEmpty, tags := tags }
     else
-      match tr.find? (fun p => !Spec.C19.holdsOp p) with
+      match tr.find? (fun p => !Spec.C19.holdsExp p || (inDom && !Spec.C19.holdsOp p)) with
       | some p => { ok := false, nontrivial := true, tags := tags,
                     reason := failSig p ++ ":" ++ (render p.2).replace " " "_" }
       | none => Verdict.fail "holdsOn-false"
